@@ -56,10 +56,17 @@ def case_ok(pw):
 RULE_DIRS = ("Alpha", "Capitalization", "Digits", "Other", "Keyboard", "Years", "Context")
 
 
-def pipeline_case(passwords, enc, cov, g, tree, all_lines):
-    """One case for PipelineCorr.check_pipeline: the inputs of the model and what the real code produced."""
+def pipeline_case(passwords, enc, cov, g, tree, all_lines, rle=None):
+    """One case for PipelineCorr.check_pipeline: the inputs of the model and what the real code produced.
+    rle: the training sequence as [(password, repetitions)] - the model's raw list is then the Gallina expression that
+    repeats every password (the model still parses every single line, as the trainer does)."""
     import seg_gen
     T = trainer_io
+    if rle is not None:
+        raw = ("(flat_map (fun pc : Str.str * N => repeat (fst pc) (N.to_nat (snd pc))) %s)"
+               % T.clist(rle, lambda e: "(%s, %d%%N)" % (T.cs(e[0]), e[1]), "(Str.str * N)"))
+    else:
+        raw = T.cstrs(passwords)
     chars = set("".join(passwords))
     for _ in range(2):
         chars |= set("".join(c.lower() + c.upper() for c in chars))
@@ -90,7 +97,7 @@ def pipeline_case(passwords, enc, cov, g, tree, all_lines):
     exp = "(Some (%s, %s, %s))" % (cgram, cbases, T.cstrs(sorted(all_lines)))
     return ("{| pk_extra := %s; pk_raw := %s; pk_cov := %s; pk_repr := %s; pk_pfloat := %s; pk_unenc := %s; "
             "pk_abort := %s; pk_exp := %s |}" % (
-                extra, T.cstrs(passwords), T.cf(cov), T.repr_table(floats), T.c_pfloat_table(ptab),
+                extra, raw, T.cf(cov), T.repr_table(floats), T.c_pfloat_table(ptab),
                 T.clist(unenc, T.cN, "N"), common.cbool(T.surrogate_reason_aborts(enc)), exp))
 
 
@@ -103,6 +110,9 @@ CRAFTED = [
     (["1qaz", "1qaz2wsx", "qwer", "zxcvbn1", "19991", "a2019", "2019a", "x#1", "#12"], "utf-8", 0.9),
 ]
 
+# large-count lists up to this many lines are also run through the pipeline model inside coqc
+MODEL_LINES = {"quick": 12000, "thorough": 130000}
+
 PIPE_HEADER = ["From Coq Require Import List NArith ZArith Bool Floats.",
                "From Pcfg Require Import Str TextFile Counters IoCorr Pipeline PipelineCorr.",
                "Import ListNotations.", "Open Scope float_scope.", "Open Scope N_scope.", ""]
@@ -111,14 +121,20 @@ DIAG = {1: "one side has no loadable ruleset", 2: "the loaded grammar (terminal 
         5: "model and implementation agree but the float sanity check f64_arith_ok (hypothesis of C03_reproduced_F64) is false on this run"}
 
 
-def segment_all(passwords):
-    """the segmentation pass 2 of the trainer uses (multi-word detector trained on the whole list first)"""
+def segment_all(passwords, train_rle=None):
+    """the segmentation pass 2 of the trainer uses (multi-word detector trained on the whole list first).
+    train_rle: the training sequence as [(password, repetitions)] when `passwords` only holds the distinct ones"""
     common.repo_on_path()
     import lib_trainer.pcfg_password_parser as ppp
     from lib_trainer.detection_rules.multiword_detector import MultiWordDetector
     mwd = MultiWordDetector(threshold=5, min_len=4, max_len=21)
-    for p in passwords:
-        mwd.train(p)
+    if train_rle is None:
+        for p in passwords:
+            mwd.train(p)
+    else:
+        for p, n in train_rle:
+            for _ in range(n):
+                mwd.train(p)
     cap = []
     orig = ppp.base_structure_creation
 
@@ -142,17 +158,377 @@ def segment_all(passwords):
     return out
 
 
+# ---------------------------------------------------------------------------
+# training histories with LARGE counts: values that were seen hundreds / thousands of times, almost equally often
+
+W_WORDS = {4: ["lamp", "blue", "tree", "frog", "king", "moon", "star", "wolf"],
+           5: ["chair", "table", "horse", "tiger", "apple", "house", "light", "water"],
+           6: ["monkey", "dragon", "summer", "winter", "purple", "wizard", "silver", "orange"]}
+W_WORDS_ENC = {"utf-8": {5: ["весна", "осень", "école"],
+                         6: ["пароль", "привет", "garçon"]},
+               "cp1251": {5: ["весна", "осень"],
+                          6: ["пароль", "привет"]},
+               "latin-1": {5: ["école", "crème"], 6: ["garçon", "façade"]}}
+W_DIGITS = {1: list("0123456789"), 2: ["12", "07", "99", "21", "00", "69"], 3: ["123", "007", "321", "999", "000"],
+            4: ["1234", "4321", "0000", "1111", "7890"]}
+W_OTHER = {1: list("!#$%&*?._-"), 2: ["!!", "!?", "$$", "**", "..", "#$"]}
+W_YEARS = ["1984", "1999", "2001", "2010", "2019", "2020"]
+W_WALKS = ["qwer", "asdf", "zxcv", "1qaz", "2wsx", "qaz1"]
+W_CONTEXT = ["#1", "<3", ";p", "*0*"]
+
+
+def near_counts(rng, k, scale):
+    """k counts, the first in the range of `scale`, every next one 0-3 (or, for the larger scales, less than 1%) lower"""
+    if scale == "h":
+        c, steps = rng.randint(100, 400), [0, 1, 1, 2, 3]
+    elif scale == "k":
+        c, steps = rng.randint(1000, 3000), [0, 1, 2, 5, 9]
+    else:
+        c, steps = rng.randint(10000, 12000), [0, 1, 7, 40, 95]
+    out = [c]
+    for _ in range(k - 1):
+        c = max(1, c - rng.choice(steps))
+        out.append(c)
+    return out
+
+
+_LB = []
+
+
+def has_linebreak(p):
+    if not _LB:
+        _LB.append(set(trainer_io.char_classes()["linebreak"]))
+    return any(ord(c) in _LB[0] for c in p)
+
+
+def mask_apply(word, mask):
+    return "".join(c.upper() if m == "U" else c for c, m in zip(word, mask))
+
+
+W_FAMILIES = ["alpha", "digits", "other", "years", "walks", "context", "masks", "base"]
+
+
+def gen_weighted(rng, enc, scale, first, dominant=(), extra=None):
+    """A training history in which the values of ONE rules file were each seen very often and almost equally often:
+    values of one terminal file (alpha words of one length, digits / symbols of one length, years, keyboard walks, context
+    strings), capitalisation masks of one length, base structures - the family `first` and up to two more in one list - plus
+    a tail of rare passwords and optionally dominant passwords.  Returns ([(password, count)], [family names])."""
+    L = rng.choice([4, 5, 6])
+    words = list(W_WORDS[L]) + (W_WORDS_ENC.get(enc, {}).get(L, []) if rng.random() < 0.5 else [])
+    rng.shuffle(words)
+    fams = [first] + rng.sample([f for f in W_FAMILIES if f != first], rng.choice([0, 0, 1, 2]) if extra is None else extra)
+    entries, names = [], []
+    for fam in dict.fromkeys(fams):
+        k = rng.randint(2, 5)
+        cs = near_counts(rng, k, scale)
+        w0 = rng.choice(words)
+        if fam == "alpha":
+            suffix = rng.choice(["", "", "1", "!", "12"])
+            vals = [w + suffix for w in words[:k]]
+        elif fam == "digits":
+            n = rng.choice([1, 2, 3, 4])
+            ds = rng.sample(W_DIGITS[n], min(k, len(W_DIGITS[n])))
+            vals = [rng.choice([w0 + d, d + w0]) if rng.random() < 0.2 else w0 + d for d in ds]
+        elif fam == "other":
+            n = rng.choice([1, 1, 2])
+            os_ = rng.sample(W_OTHER[n], min(k, len(W_OTHER[n])))
+            vals = [w0 + o for o in os_]
+        elif fam == "years":
+            vals = [w0 + y for y in rng.sample(W_YEARS, k)]
+        elif fam == "walks":
+            tail = rng.choice(["", "1", "!"])
+            vals = [x + tail for x in rng.sample(W_WALKS, k)]
+        elif fam == "context":
+            vals = [w0 + x for x in rng.sample(W_CONTEXT, min(k, len(W_CONTEXT)))]
+        elif fam == "masks":
+            masks = ["L" * L, "U" + "L" * (L - 1), "U" * L, "L" * (L - 1) + "U", "UL" * (L // 2) + "U" * (L % 2), "LU" + "L" * (L - 2)]
+            ms = rng.sample(masks, k)
+            suffix = rng.choice(["", "1", "7!"])
+            vals = [mask_apply(rng.choice(words[:2]) if rng.random() < 0.3 else w0, m) + suffix for m in ms]
+        else:   # base structures
+            d, o, y = rng.choice(W_DIGITS[2]), rng.choice(W_OTHER[1]), rng.choice(W_YEARS)
+            shapes = [w0, w0 + d, d + w0, w0 + o, w0 + d + o, o + w0, w0 + y, w0 + o + d, d + o, w0 + " " + rng.choice(words)]
+            vals = rng.sample(shapes, k)
+        names.append(fam)
+        for v, c in zip(vals, cs):
+            entries.append((v, c))
+    # words that were seen often enough to split a multi-word password
+    if rng.random() < 0.4:
+        a, b = rng.sample(words, 2)
+        entries += [(a, rng.randint(5, 9)), (b, rng.randint(5, 9)), (a + b, rng.choice([1, 2, 101])), (b.capitalize() + a + "1", 1)]
+        names.append("multiword")
+    for p, c in trainer_io.gen_entries(rng, enc, n_distinct=rng.randint(2, 6)):
+        if not (trainer_io.is_hex_shaped(p) or has_linebreak(p) or "\r" in p or "\n" in p or "\t" in p):
+            entries.append((p, c))
+    for pw, c in zip(rng.sample(["password1", "123456", "Password", "iloveyou"], len(dominant)), dominant):
+        entries.append((pw, c))
+        names.append("dominant")
+    entries = [(p, c) for p, c in entries if trainer_io.encodable(p, enc)]
+    rng.shuffle(entries)
+    return entries, names
+
+
+def sequence_of(rng, entries, prefixcount):
+    """the training sequence [(password, repetitions)]: with --prefixcount one line per entry; with repeated lines either
+    one block per entry or one line of every password first (first-seen order differs from count order) and then the blocks"""
+    if prefixcount or rng.random() < 0.5:
+        return [(p, c) for p, c in entries]
+    head = [(p, 1) for p, c in entries]
+    rng.shuffle(head)
+    return head + [(p, c - 1) for p, c in entries if c > 1]
+
+
+def write_training(fn, rle, enc, prefixcount):
+    with open(fn, "wb") as f:
+        for p, n in rle:
+            if prefixcount:
+                f.write(("%d %s" % (n, p)).encode(enc) + b"\n")
+            else:
+                f.write((p.encode(enc) + b"\n") * n)
+
+
+def train_start(code, training_file, name, enc, coverage, ngram, prefixcount):
+    """trainer.py of the scratch copy as a subprocess that runs beside the rest of the check"""
+    import subprocess
+    env = common.subenv()
+    env["PYTHONPATH"] = code
+    env["PYTHONHASHSEED"] = "0"
+    cmd = [common.PY, "trainer.py", "-t", training_file, "-r", name, "-e", enc, "-c", repr(coverage), "-n", str(ngram)]
+    if prefixcount:
+        cmd.append("--prefixcount")
+    return subprocess.Popen(cmd, cwd=code, env=env, stdin=subprocess.DEVNULL, stdout=subprocess.DEVNULL, stderr=subprocess.DEVNULL)
+
+
+# ---------------------------------------------------------------------------
+# sessions on one loaded grammar
+
+def run_session(g, limit=None, cap_items=20000, cap_guesses=2000000):
+    """One guessing session on an already loaded grammar, driven the way CrackingSession.run drives it: a fresh PcfgQueue,
+    pop, create_guesses(pt, limit), subtract, stop at the limit.  Returns [(pt, prob, lines)] or None (caps / raised)."""
+    from lib_guesser.priority_queue import PcfgQueue
+    q = PcfgQueue(g)
+    out, total = [], 0
+    while len(out) < cap_items and total <= cap_guesses:
+        it = q.next()
+        if it is None:
+            return out
+        res = collect(g, it["pt"], limit)
+        if res is None:
+            return None
+        out.append(([tuple(x) for x in it["pt"]], it["prob"], res[0]))
+        total += res[1]
+        if limit:
+            limit -= res[1]
+            if limit <= 0:
+                return out
+    return None
+
+
+def judge_session(ref, got, limit, supported):
+    """ref: the first complete session of the freshly loaded grammar.  got: a later session on the same grammar object.
+    Returns (kind, text) or None: the property's own oracles on the later session first (every supported training password
+    emitted, probabilities sum to 1), then equality with the first session, guess for guess."""
+    if got is None:
+        return ("raised", "a later session on the same loaded grammar raised or did not end")
+    if limit:
+        return None     # a limited session is only part of the history: C03 speaks about complete generation
+    if got == ref:
+        return None
+    lang = set(s for _, _, ls in got for s in ls)
+    total = sum(p * len(ls) for _, p, ls in got)
+    missing = [p for p in supported if p not in lang]
+    if missing:
+        return ("not-reproduced", "training password %r (and %d more) is never generated; %d of %d pre-terminals, probabilities sum to %r"
+                % (missing[0], len(missing) - 1, len(got), len(ref), total))
+    if abs(total - 1.0) > 1e-9:
+        return ("sum-not-one", "probabilities of all guesses sum to %r (%d of %d pre-terminals)" % (total, len(got), len(ref)))
+    k = next((j for j, (a, b) in enumerate(zip(got, ref)) if a != b), min(len(got), len(ref)))
+    return ("differs", "pre-terminal %d is %r, the first session gave %r" % (k, got[k:k + 1], ref[k:k + 1]))
+
+
+def histories(g, reload, ref, supported, k_limit):
+    """Sessions after the first complete one.  On the SAME grammar object: a limited session, a complete one; on a freshly
+    loaded grammar: a limited session first, then a complete one.  Each complete session must equal the first one guess
+    for guess.  Returns (history, kind, text) of the first failure or None."""
+    hist = [["complete", None]]
+    for lim in (k_limit, None):
+        hist.append(["limited", lim] if lim else ["complete", None])
+        bad = judge_session(ref, run_session(g, lim), lim, supported)
+        if bad:
+            return hist, bad[0], bad[1]
+    g2 = reload()
+    hist = []
+    for lim in (k_limit, None):
+        hist.append(["limited", lim] if lim else ["complete", None])
+        bad = judge_session(ref, run_session(g2, lim), lim, supported)
+        if bad:
+            return hist, bad[0], bad[1]
+    return None
+
+
+class State:
+    def __init__(self):
+        self.vio, self.samples, self.cases, self.pipe_cases = [], [], [], []
+        self.dist = {"lists": 0, "passwords": 0, "supported": 0, "unsupported_ew": 0, "outside_case_domain": 0, "too_large": 0,
+                     "encodings": {}, "coverage": {}, "train_failed": 0, "max_sum_deviation": 0.0, "kinds": {},
+                     "pipeline_model_runs": 0, "pipeline_model_runs_weighted": 0, "weighted_lists": 0, "weighted_families": {},
+                     "weighted_modes": {}, "weighted_max_count": 0, "weighted_lines": 0,
+                     "session_histories": 0, "sessions_after_the_first": 0}
+        self.nontrivial, self.seen = 0, set()
+
+
+def process(ctx, st, code, name, rd, tree, passwords, enc, cov, replay, rle=None, model_cap=None):
+    """One trained ruleset: load, enumerate to exhaustion, the property's oracles, later sessions on the same grammar,
+    the case for the pipeline model.  passwords: the training sequence (rle None) or the distinct passwords (rle given)."""
+    import shutil
+    from lib_guesser.pcfg_grammar import PcfgGrammar
+    vio, dist = st.vio, st.dist
+    dist["lists"] += 1
+    dist["encodings"][enc] = dist["encodings"].get(enc, 0) + 1
+    dist["coverage"][str(cov)] = dist["coverage"].get(str(cov), 0) + 1
+
+    def load():
+        return common.quiet_call(PcfgGrammar, name, rd, "4.7", None, True, False, False, "Grammar")[0]
+    try:
+        g = load()
+    except Exception as e:
+        vio.append({"sig": "C03:ruleset-not-loadable", "what": "the guesser cannot load the ruleset the trainer wrote: %r" % (e,), "replay": replay})
+        return
+    try:
+        items, _, capped, _ = impl_next.full_stream(g, cap=ctx.scale(4000, 20000), check_heap=False)
+        if capped:
+            dist["too_large"] += 1
+            return
+        lang = {}
+        all_lines = []
+        ref = []
+        total = 0.0
+        nguess = 0
+        for it in items:
+            res = collect(g, it["pt"], None)
+            if res is None:
+                vio.append({"sig": "C03:expansion-raised", "what": "create_guesses raised on %r" % (it["pt"],), "replay": replay})
+                continue
+            all_lines += res[0]
+            ref.append((it["pt"], it["prob"], res[0]))
+            for s in res[0]:
+                lang[s] = lang.get(s, 0.0) + it["prob"]
+            total += it["prob"] * res[1]
+            nguess += res[1]
+            if nguess > ctx.scale(300000, 2000000):
+                dist["too_large"] += 1
+                return
+        # the pipeline MODEL on the same list (small lists: the model runs inside coqc)
+        distinct = list(dict.fromkeys(passwords))
+        nlines = sum(n for _, n in rle) if rle is not None else len(passwords)
+        if (len(distinct) <= (24 if rle is not None else 14) and nlines <= (model_cap or 60) and nguess <= 1500
+                and (dist["pipeline_model_runs_weighted"] < ctx.scale(20, 120) if rle is not None
+                     else dist["pipeline_model_runs"] - dist["pipeline_model_runs_weighted"] < ctx.scale(24, 200))
+                and not any(trainer_io.is_hex_shaped(p) or has_linebreak(p) or "\r" in p or "\n" in p
+                            for p in passwords)):
+            st.pipe_cases.append((pipeline_case(passwords, enc, cov, g, tree, all_lines, rle), replay, nlines))
+            dist["pipeline_model_runs"] += 1
+            dist["pipeline_model_runs_weighted"] += rle is not None
+        segs = segment_all(distinct, rle) if rle is not None else segment_all(passwords)
+        # what actually reaches the trainer: the reader may reject some lines (C19); take the accepted ones
+        supported = []
+        for p in distinct:
+            dist["passwords"] += 1
+            sl = segs.get(p)
+            if sl is None:
+                continue
+            if any(lab in ("E", "W") for _, lab in sl):
+                dist["unsupported_ew"] += 1
+                continue
+            if not case_ok(p):
+                dist["outside_case_domain"] += 1
+                continue
+            dist["supported"] += 1
+            supported.append(p)
+            kinds = "".join(sorted(set(lab[0] for _, lab in sl)))
+            dist["kinds"][kinds] = dist["kinds"].get(kinds, 0) + 1
+            if p not in lang:
+                vio.append({"sig": "C03:not-reproduced", "what": "training password %r (segments %r) is never generated from the trained ruleset "
+                            "(encoding %s, coverage %s)" % (p, sl, enc, cov), "replay": dict(replay, password=p)})
+            key = (p, enc)
+            if key not in st.seen:
+                st.seen.add(key)
+                st.nontrivial += len(sl) >= 2 or any(c.isupper() for c in p) or any(ord(c) > 127 for c in p)
+        dev = abs(total - 1.0)
+        dist["max_sum_deviation"] = max(dist["max_sum_deviation"], dev)
+        if dev > 1e-9:
+            vio.append({"sig": "C03:sum-not-one", "what": "probabilities of all guesses sum to %r (encoding %s, coverage %s)" % (total, enc, cov), "replay": replay})
+        # the same loaded grammar used again: every later session must give what the first one gave
+        if nguess <= ctx.scale(60000, 400000):
+            k_limit = 1 + (dist["session_histories"] * 7 + nguess) % max(1, min(nguess, 40))
+            dist["session_histories"] += 1
+            dist["sessions_after_the_first"] += 4
+            bad = histories(g, load, ref, supported, k_limit)
+            if bad:
+                hist, kind, text = bad
+                vio.append({"sig": "C03:later-session:" + kind,
+                            "what": "history %s on one loaded grammar object (each session with its own new PcfgQueue): in the last "
+                                    "session %s (encoding %s, coverage %s)" % (json.dumps(hist), text, enc, cov),
+                            "replay": dict(replay, history=hist)})
+        if len(st.samples) < 3 or (rle is not None and len(st.samples) < 5):
+            st.samples.append({"passwords": distinct[:8], "counts": [n for _, n in rle][:12] if rle is not None else None,
+                               "encoding": enc, "coverage": cov, "guesses": nguess, "sum": total,
+                               "segments": {p: segs[p] for p in distinct[:3]}})
+        # a case for the composition check in Coq: masks round trip for each supported alpha tile
+        for p in distinct:
+            sl = segs.get(p)
+            if sl and case_ok(p) and not any(lab in ("E", "W") for _, lab in sl):
+                for txt, lab in sl:
+                    if lab[0] == "A" and len(st.cases) < 600:
+                        chars = sorted(set(txt) | set(txt.lower()))
+                        st.cases.append((txt, [(c, c.lower(), c.upper(), c.isupper()) for c in chars]))
+    finally:
+        shutil.rmtree(rd, ignore_errors=True)
+
+
 def run(ctx):
     nlists = ctx.scale(24, 400)
     code = common.copy_code_tree(common.scratch())
     sc = common.scratch()
-    vio, samples = [], []
-    dist = {"lists": 0, "passwords": 0, "supported": 0, "unsupported_ew": 0, "outside_case_domain": 0, "too_large": 0,
-            "encodings": {}, "coverage": {}, "train_failed": 0, "max_sum_deviation": 0.0, "kinds": {}}
-    nontrivial, seen = 0, set()
-    cases = []
-    pipe_cases = []
-    dist["pipeline_model_runs"] = 0
+    st = State()
+    vio, dist = st.vio, st.dist
+    # The training histories with large counts are generated first and trained by a few trainer.py processes that run
+    # beside the rest of the check (the lists with a dominant password of 10^5 need ~10 s each).
+    wrng = __import__("random").Random("C03-large-counts-%s" % ctx.seed)
+    jobs = []
+    for j in range(ctx.scale(1, 4)):
+        enc, cov = wrng.choice(["utf-8", "utf-8", "latin-1", "cp1251"]), wrng.choice([0.3, 0.6, 0.9, 1.0])
+        dom = [wrng.choice([100000, 100000, 99999, 123457])]
+        if j % 2 == 1:
+            dom.append(dom[0] - wrng.choice([0, 1, 50, 900]))      # two dominant passwords, less than 1 percent apart
+        entries, fams = gen_weighted(wrng, enc, "h", wrng.choice(W_FAMILIES), dominant=dom, extra=1)
+        jobs.append({"name": "B%d" % j, "enc": enc, "cov": cov, "ngram": 4, "prefixcount": True, "fams": fams,
+                     "rle": sequence_of(wrng, entries, True)})
+    for i in range(ctx.scale(16, 160)):
+        enc = wrng.choice(["utf-8", "utf-8", "latin-1", "cp1251"])
+        cov = wrng.choice([0.3, 0.6, 0.9, 0.95, 1.0])
+        ngram = wrng.choice([2, 3, 4])
+        # every family as the first one, with --prefixcount and with repeated lines, in every 16 lists
+        first = W_FAMILIES[i % 8]
+        prefixcount = (i // 8) % 2 == 0
+        scale = "hhhkhhhhhkhhhthh"[i % 16]
+        dom = [wrng.choice([2000, 5003])] if scale == "h" and wrng.random() < 0.4 else []
+        entries, fams = gen_weighted(wrng, enc, scale, first, dominant=dom, extra=0 if scale == "t" else None)
+        jobs.append({"name": "W%d" % i, "enc": enc, "cov": cov, "ngram": ngram, "prefixcount": prefixcount, "fams": fams,
+                     "rle": sequence_of(wrng, entries, prefixcount)})
+
+    def pump(limit=5):
+        running = sum(1 for jb in jobs if jb.get("proc") is not None and jb["proc"].poll() is None)
+        for jb in jobs:
+            if running >= limit:
+                break
+            if "proc" not in jb:
+                fn = os.path.join(sc, "w_%s.txt" % jb["name"])
+                write_training(fn, jb["rle"], jb["enc"], jb["prefixcount"])
+                jb["proc"] = train_start(code, fn, jb["name"], jb["enc"], jb["cov"], jb["ngram"], jb["prefixcount"])
+                running += 1
+    os.makedirs(os.path.join(code, "Rules"), exist_ok=True)     # the trainers that run side by side never create it at once
+    pump()
     for i in range(nlists + len(CRAFTED)):
         enc = ctx.rng.choice(["utf-8", "utf-8", "latin-1", "cp1251"])
         cov = ctx.rng.choice([0.3, 0.6, 0.9, 0.95, 1.0])
@@ -190,6 +566,7 @@ def run(ctx):
             dist["multiword_histories"] = dist.get("multiword_histories", 0) + 1
         if not passwords:
             continue
+        pump()
         fn = os.path.join(sc, "train_%d.txt" % i)
         with open(fn, "wb") as f:
             for p in passwords:
@@ -200,87 +577,41 @@ def run(ctx):
         if rc != 0 or not tree:
             dist["train_failed"] += 1
             continue
-        dist["lists"] += 1
-        dist["encodings"][enc] = dist["encodings"].get(enc, 0) + 1
-        dist["coverage"][str(cov)] = dist["coverage"].get(str(cov), 0) + 1
-        rd = os.path.join(code, "Rules", name)
-        from lib_guesser.pcfg_grammar import PcfgGrammar
+        process(ctx, st, code, name, os.path.join(code, "Rules", name), tree, passwords, enc, cov, replay)
+
+    import time
+    t_lists = time.time()
+
+    # training histories with large, almost equal counts (--prefixcount lists and repeated lines)
+    def weighted(name, enc, cov, ngram, prefixcount, rle, fams, tree, model_cap):
+        replay = {"rle": [[p, n] for p, n in rle], "prefixcount": prefixcount, "encoding": enc, "coverage": cov, "ngram": ngram}
+        dist["weighted_lists"] += 1
+        for f in fams:
+            dist["weighted_families"][f] = dist["weighted_families"].get(f, 0) + 1
+        m = "prefixcount" if prefixcount else "repeated-lines"
+        dist["weighted_modes"][m] = dist["weighted_modes"].get(m, 0) + 1
+        dist["weighted_max_count"] = max([dist["weighted_max_count"]] + [n for _, n in rle])
+        dist["weighted_lines"] += sum(n for _, n in rle)
+        process(ctx, st, code, name, os.path.join(code, "Rules", name), tree, [p for p, _ in rle], enc, cov, replay, rle=rle,
+                model_cap=model_cap)
+    for jb in jobs:
+        while "proc" not in jb:
+            pump()
+            time.sleep(0.05)
         try:
-            g, _, _ = common.quiet_call(PcfgGrammar, name, rd, "4.7", None, True, False, False, "Grammar")
-        except Exception as e:
-            vio.append({"sig": "C03:ruleset-not-loadable", "what": "the guesser cannot load the ruleset the trainer wrote: %r" % (e,), "replay": replay})
+            rc = jb["proc"].wait(timeout=900)
+        except Exception:
+            jb["proc"].kill()
+            rc = -1
+        pump()
+        rd = os.path.join(code, "Rules", jb["name"])
+        tree = trainer_io.read_tree(rd) if rc == 0 and os.path.isdir(rd) else {}
+        if rc != 0 or not tree:
+            dist["train_failed"] += 1
             continue
-        items, _, capped, _ = impl_next.full_stream(g, cap=ctx.scale(4000, 20000), check_heap=False)
-        if capped:
-            dist["too_large"] += 1
-            continue
-        lang = {}
-        all_lines = []
-        total = 0.0
-        nguess = 0
-        too_big = False
-        for it in items:
-            res = collect(g, it["pt"], None)
-            if res is None:
-                vio.append({"sig": "C03:expansion-raised", "what": "create_guesses raised on %r" % (it["pt"],), "replay": replay})
-                continue
-            all_lines += res[0]
-            for s in res[0]:
-                lang[s] = lang.get(s, 0.0) + it["prob"]
-            total += it["prob"] * res[1]
-            nguess += res[1]
-            if nguess > ctx.scale(300000, 2000000):
-                too_big = True
-                break
-        if too_big:
-            dist["too_large"] += 1
-            continue
-        # the pipeline MODEL on the same list (small lists: the model runs inside coqc)
-        if (len(set(passwords)) <= 14 and len(passwords) <= 60 and nguess <= 1500 and len(pipe_cases) < ctx.scale(24, 200)
-                and not any(trainer_io.is_hex_shaped(p) or trainer_io.has_linebreak(p) or "\r" in p or "\n" in p
-                            for p in passwords)):
-            pipe_cases.append((pipeline_case(passwords, enc, cov, g, tree, all_lines), replay))
-            dist["pipeline_model_runs"] += 1
-        segs = segment_all(passwords)
-        # what actually reaches the trainer: the reader may reject some lines (C19); take the accepted ones
-        for p in dict.fromkeys(passwords):
-            dist["passwords"] += 1
-            sl = segs.get(p)
-            if sl is None:
-                continue
-            if any(lab in ("E", "W") for _, lab in sl):
-                dist["unsupported_ew"] += 1
-                continue
-            if not case_ok(p):
-                dist["outside_case_domain"] += 1
-                continue
-            dist["supported"] += 1
-            kinds = "".join(sorted(set(lab[0] for _, lab in sl)))
-            dist["kinds"][kinds] = dist["kinds"].get(kinds, 0) + 1
-            if p not in lang:
-                vio.append({"sig": "C03:not-reproduced", "what": "training password %r (segments %r) is never generated from the trained ruleset "
-                            "(encoding %s, coverage %s)" % (p, sl, enc, cov), "replay": dict(replay, password=p)})
-            key = (p, enc)
-            if key not in seen:
-                seen.add(key)
-                nontrivial += len(sl) >= 2 or any(c.isupper() for c in p) or any(ord(c) > 127 for c in p)
-        dev = abs(total - 1.0)
-        dist["max_sum_deviation"] = max(dist["max_sum_deviation"], dev)
-        if dev > 1e-9:
-            vio.append({"sig": "C03:sum-not-one", "what": "probabilities of all guesses sum to %r (encoding %s, coverage %s)" % (total, enc, cov), "replay": replay})
-        if len(samples) < 3:
-            samples.append({"passwords": passwords[:8], "encoding": enc, "coverage": cov, "guesses": nguess, "sum": total,
-                            "segments": {p: segs[p] for p in list(dict.fromkeys(passwords))[:3]}})
-        # a case for the composition check in Coq: masks round trip for each supported alpha tile
-        for p in dict.fromkeys(passwords):
-            sl = segs.get(p)
-            if sl and case_ok(p) and not any(lab in ("E", "W") for _, lab in sl):
-                for txt, lab in sl:
-                    if lab[0] == "A" and len(cases) < 600:
-                        chars = sorted(set(txt) | set(txt.lower()))
-                        cases.append((txt, [(c, c.lower(), c.upper(), c.isupper()) for c in chars]))
-        import shutil
-        shutil.rmtree(rd, ignore_errors=True)
+        weighted(jb["name"], jb["enc"], jb["cov"], jb["ngram"], jb["prefixcount"], jb["rle"], jb["fams"], tree, MODEL_LINES[ctx.tier])
+    t_big = time.time()
+    cases, pipe_cases = st.cases, st.pipe_cases
     # correspondence for the mask round trip (the only new model function of C03): mask_of / lower / apply on real tiles
     shards = []
     per = 150
@@ -293,15 +624,16 @@ def run(ctx):
                "Definition cases : list (str * list (N * (str * str * bool))) := [", ";\n".join(lits), "].",
                "Eval vm_compute in (failing check_mask_roundtrip cases)."]
         shards.append(("m%03d" % (s // per), "\n".join(src)))
-    pper = 2
     pindex = {}
-    for s0 in range(0, len(pipe_cases), pper):
-        chunk = pipe_cases[s0:s0 + pper]
+    light = [c for c in pipe_cases if c[2] <= 60]
+    chunks = [light[s0:s0 + 2] for s0 in range(0, len(light), 2)] + [[c] for c in pipe_cases if c[2] > 60]
+    # the cases with thousands of lines first: they take longest
+    for n, chunk in enumerate(sorted(chunks, key=lambda ch: -sum(c[2] for c in ch))):
         src = list(PIPE_HEADER)
-        src.append("Definition cases : list pipe_case := [\n%s\n]." % ";\n".join(c for c, _ in chunk))
+        src.append("Definition cases : list pipe_case := [\n%s\n]." % ";\n".join(c[0] for c in chunk))
         src.append("Eval vm_compute in (map (fun kc => (fst kc * 10 + diagnose (snd kc))%nat) "
                    "(filter (fun kc => negb (check_pipeline (snd kc))) (combine (seq 0 (length cases)) cases))).")
-        nm = "p%03d" % (s0 // pper)
+        nm = "p%03d" % n
         shards.append((nm, "\n".join(src)))
         pindex[nm] = chunk
     corr = []
@@ -314,7 +646,7 @@ def run(ctx):
                 corr.append(("pipeline:" + name, False, "the pipeline model (Pipeline.v, binary64) and the real trainer -> guesser "
                              "differ: %s; first case: %s" % (DIAG.get(why, "?"), json.dumps(pindex[name][k][1], default=str)[:600])))
             else:
-                corr.append(("pipeline:" + name, True, "%d training lists" % len(pindex[name])))
+                corr.append(("pipeline:" + name, True, "%d training lists, %d lines" % (len(pindex[name]), sum(c[2] for c in pindex[name]))))
             continue
         if idx is None:
             corr.append(("mask-roundtrip:" + name, False, log[-800:]))
@@ -322,46 +654,87 @@ def run(ctx):
             corr.append(("mask-roundtrip:" + name, False, "mask_of/lower/apply do not give back the tile for cases %s" % idx[:10]))
         else:
             corr.append(("mask-roundtrip:" + name, True, ""))
+    dist["seconds"] = {"small_lists": round(t_lists - ctx.t0, 1), "large_count_lists": round(t_big - t_lists, 1),
+                       "coq_cases": round(time.time() - t_big, 1)}
     rule = ("generated training lists (words, capitalised words, multi-words, digits, years, symbols, keyboard walks, context strings, "
             "spaces, Latin-1 / Cyrillic / Cherokee / Georgian letters and digraphs with a separate title case, three-word passwords followed by "
             "their two-word tails, non-ASCII spaces / format / private-use characters, e-mails, websites, duplicates) in utf-8 / latin-1 / cp1251, coverage 0.3 / 0.6 / 1, n-gram 2-4; "
+            "PLUS training histories with large counts (--prefixcount lists and repeated lines, blocks or first-seen order different from "
+            "count order): 2-5 values of ONE rules file - alpha words of one length, digits / symbols of one length, years, keyboard "
+            "walks, context strings, capitalisation masks of one length, base structures; every family first in turn, with --prefixcount and with repeated lines, up to two more families per list - seen "
+            "100..400 (neighbours 0-3 apart), 1000..3000 or 10000..12000 (neighbours less than 1 percent apart) times each, a rare tail, words often "
+            "enough to split multi-words, optionally one dominant password (2000 / 5003 / 10^5; the 10^5 lists are trained beside the "
+            "rest of the run); "
             "real trainer.py subprocess, real guesser with skip_brute run to exhaustion, whole language enumerated; every supported training "
-            "password must be in it and the probabilities must sum to 1 (1e-9); non-trivial = password with >= 2 segments, capitals or "
-            "non-ASCII; distinct by (password, encoding).  Lists with <= 14 distinct passwords and <= 1500 guesses, plus three fixed lists "
+            "password must be in it and the probabilities must sum to 1 (1e-9); then the SAME loaded grammar object is used again "
+            "(each session with its own new PcfgQueue, driven like CrackingSession.run): a session limited to k guesses and a complete "
+            "one, and on a freshly loaded grammar a limited session first and then a complete one - every complete session must equal the "
+            "first one guess for guess; non-trivial = password with >= 2 segments, capitals or "
+            "non-ASCII; distinct by (password, encoding).  Lists with <= 14 distinct passwords and <= 1500 guesses, the large-count lists "
+            "with <= %d lines, plus three fixed lists "
             "at the edges of the trainer's comparisons, are also run through the pipeline MODEL inside coqc (binary64, repr/float() "
-            "tables of the interpreter): loaded grammar, base structures and the multiset of guesses must coincide with the real "
-            "trainer -> guesser, and the float sanity check f64_arith_ok of C03_reproduced must hold")
-    return {"evaluations": dist["passwords"], "distinct_nontrivial": nontrivial, "rule": rule, "samples": samples,
+            "tables of the interpreter; the model parses every repeated line like the trainer): loaded grammar, base structures and the multiset of guesses must coincide with the real "
+            "trainer -> guesser, and the float sanity check f64_arith_ok of C03_reproduced must hold" % MODEL_LINES[ctx.tier])
+    return {"evaluations": dist["passwords"], "distinct_nontrivial": st.nontrivial, "rule": rule, "samples": st.samples,
             "corr": corr, "violations": vio, "dist": dist}
 
 
 def replay(ctx, data):
     inp = data.get("input") or {}
-    if "passwords" not in inp:
+    if "passwords" not in inp and "rle" not in inp:
         return []
     code = common.copy_code_tree(common.scratch())
     sc = common.scratch()
     enc = inp["encoding"]
     fn = os.path.join(sc, "t.txt")
-    with open(fn, "wb") as f:
-        for p in inp["passwords"]:
-            f.write(p.encode(enc) + b"\n")
-    rc, out, err, tree = trainer_io.train_cli(code, fn, "RP", enc, coverage=inp["coverage"], ngram=inp.get("ngram", 4))
+    prefixcount = bool(inp.get("prefixcount"))
+    if "rle" in inp:
+        rle = [(p, int(n)) for p, n in inp["rle"]]
+        write_training(fn, rle, enc, prefixcount)
+        distinct = list(dict.fromkeys(p for p, _ in rle))
+    else:
+        rle = None
+        with open(fn, "wb") as f:
+            for p in inp["passwords"]:
+                f.write(p.encode(enc) + b"\n")
+        distinct = list(dict.fromkeys(inp["passwords"]))
+    rc, out, err, tree = trainer_io.train_cli(code, fn, "RP", enc, coverage=inp["coverage"], ngram=inp.get("ngram", 4),
+                                              prefixcount=prefixcount, timeout=900)
     if rc != 0:
         return []
     from lib_guesser.pcfg_grammar import PcfgGrammar
-    g, _, _ = common.quiet_call(PcfgGrammar, "RP", os.path.join(code, "Rules", "RP"), "4.7", None, True, False, False, "Grammar")
+
+    def load():
+        return common.quiet_call(PcfgGrammar, "RP", os.path.join(code, "Rules", "RP"), "4.7", None, True, False, False, "Grammar")[0]
+    g = load()
     items, _, capped, _ = impl_next.full_stream(g, cap=50000, check_heap=False)
     lang = set()
     total = 0.0
+    ref = []
     for it in items:
         res = collect(g, it["pt"], None)
         if res:
             lang.update(res[0])
             total += it["prob"] * res[1]
+            ref.append((it["pt"], it["prob"], res[0]))
     v = []
     if "password" in inp and inp["password"] not in lang:
         v.append({"sig": "C03:not-reproduced", "what": "training password %r is never generated" % inp["password"], "replay": inp})
     if abs(total - 1.0) > 1e-9:
         v.append({"sig": "C03:sum-not-one", "what": "sum %r" % total, "replay": inp})
+    if inp.get("history"):
+        # the recorded history of sessions on ONE grammar object; when it starts with the reference session itself
+        # ("complete" first) that one has just been run on g, otherwise the history starts on a freshly loaded grammar
+        hist = [(k, lim) for k, lim in inp["history"]]
+        segs = segment_all(distinct, rle) if rle is not None else segment_all(inp["passwords"])
+        supported = [p for p in distinct if segs.get(p) and case_ok(p) and not any(lab in ("E", "W") for _, lab in segs[p])]
+        if hist[0][0] == "complete":
+            gg, hist = g, hist[1:]
+        else:
+            gg = load()
+        for kind, lim in hist:
+            bad = judge_session(ref, run_session(gg, lim), lim, supported)
+            if bad:
+                v.append({"sig": "C03:later-session:" + bad[0], "what": "history %s: %s" % (json.dumps(inp["history"]), bad[1]), "replay": inp})
+                break
     return v
